@@ -8,25 +8,40 @@ LEAK = ['--bounds-check', '--pointer-check', '--div-by-zero-check', '--signed-ov
 
 RP_ADD = dict(kind='direct', harness='replay/direct/schema_add_column.c', sources=['src/core/arena.c', 'src/core/error.c'], vars={'rep_i': 'rep_i', 'oom': 'oom'})
 AC = dict(replayer=RP_ADD, entry='h_add_column', unwind=6, functions=['carquet_schema_add_column', 'carquet_schema_free'], **SB)
-NOGROW = 'case split: num_elements < capacity (no reallocation); the growth case is c17_ensure_capacity'
+NOGROW = 'case split: num_elements < capacity (no reallocation); the growth path of schema_ensure_capacity (4 x realloc + memset of symbolic size) is UNDECIDED: every formulation exceeded 8 GB'
 JOBS = [
     dict(name='c17_add_column_state', props=['C17'], defines=['CQV_PART=0', 'CQV_SCHEMA_MEMSET', 'CQV_NOGROW'], note=NOGROW, wip=False, est_s=40, **AC),
-    dict(name='c17_add_column_def_level', props=['C17'], defines=['CQV_PART=1', 'CQV_SCHEMA_MEMSET', 'CQV_NOGROW'], wip=True,
-         note='FINDING: REPEATED leaf gets max_def 0 (must be 1)', **AC),
-    dict(name='c19_add_column_name_copy', props=['C19', 'C17'], defines=['CQV_PART=2', 'CQV_SCHEMA_MEMSET', 'CQV_NOGROW'], wip=True,
-         note='FINDING: carquet_arena_strdup result not checked: OK returned with name == NULL', **AC),
+    dict(name='c17_add_column_def_level', props=['C17'], defines=['CQV_PART=1', 'CQV_SCHEMA_MEMSET', 'CQV_NOGROW'], wip=False,
+         note=NOGROW + '; found: REPEATED leaf got max_def 0 (fixed by f26ee88)', **AC),
+    dict(name='c19_add_column_name_copy', props=['C19', 'C17'], defines=['CQV_PART=2', 'CQV_SCHEMA_MEMSET', 'CQV_NOGROW'], wip=False,
+         note=NOGROW + '; found: carquet_arena_strdup result not checked (fixed by 1c84112); realloc failure inside schema_ensure_capacity is NOT covered', **AC),
 ]
 
 FR = dict(overlays=['contracts/file_reader_schema.ovl'], harness='harness/C17/file_schema.c',
           extra_sources=['stubs/mem_stubs.c', 'stubs/schema_stubs.c'], includes=['.'],
           trusted=['stubs/schema_stubs.c: carquet_arena_calloc (NULL or fresh zeroed object of count*size bytes), carquet_error_set'])
+FR['trusted'] = FR['trusted'] + ['ghost cqv_L (suffix leaf count): L[n]==0, L[i]>=0, L[i]==L[i+1]+(num_children[i]==0) assumed at the instances i used by each harness']
+TW = 'traverse_schema_recursive__rec'
 JOBS += [
-    dict(name='c17_file_schema_spec_n4', props=['C17', 'C04'], entry='h_file_schema_spec', level='bounded', loop_contracts=False, tier='thorough',
-         note='UNDECIDED: times out (400 s) even at 4 elements; recursion x loop unwinding too large',
-         bound='element lists with <= 4 elements, num_children in 0..3, all repetition labels', defines=['CQV_N=4', 'CQV_NC=3'], unwind=6,
-         functions=['build_schema', 'compute_levels', 'traverse_schema_recursive', 'count_leaves'], wip=True, timeout=400, **FR),
-    dict(name='c04_file_schema_work_n4', props=['C04'], entry='h_file_schema_work', level='bounded', loop_contracts=False, tier='thorough',
-         bound='element lists with <= 4 elements, num_children in 0..3', defines=['CQV_N=4', 'CQV_NC=3'], unwind=6,
-         functions=['build_schema', 'compute_levels', 'traverse_schema_recursive'], wip=True,
-         note='UNDECIDED in CBMC (timeout); FINDING shown natively (/tmp/schema/trav.c): traverse loops num_children times after the element list is exhausted', **FR),
+    dict(name='c17_traverse_leaf', props=['C17'], entry='h_traverse_leaf', replace=[TW], functions=['traverse_schema_recursive'], wip=False, **FR),
+    dict(name='c04_count_leaves', props=['C04'], entry='h_count_leaves', enforce='count_leaves', replace=[TW], min_loop_obligations=1, wip=False, **FR),
+    dict(name='c04_build_schema', props=['C04', 'C17', 'C19'], entry='h_build_schema', replace=['traverse_schema_recursive', 'count_leaves'],
+         functions=['build_schema', 'compute_levels'], min_loop_obligations=1, wip=False,
+         trusted=FR['trusted'] + ['count_leaves result == cqv_L[0] (number of elements with num_children == 0): assumed, the loop contract of count_leaves proves range/safety/termination only'],
+         **{k: v for k, v in FR.items() if k != 'trusted'}),
+    dict(name='c04_traverse', props=['C04', 'C17'], entry='h_traverse', enforce='traverse_schema_recursive', replace=[TW],
+         min_loop_obligations=1, wip=False, **FR),
+]
+# c17_file_schema_spec (whole-tree bounded equality with specs/schema_spec.h, harness h_file_schema_spec under CQV_REAL_REC) was DROPPED:
+# recursion x loop unwinding does not close (n<=4: timeout 280 s; n<=3: 180 s then out of memory).  The equality is covered case-wise by
+# c17_traverse_leaf (leaf levels), c04_traverse (children receive level + contribution, progress, depth) and c04_build_schema (root children 0/0).
+AG = dict(entry='h_add_group', unwind=6, functions=['carquet_schema_add_group', 'carquet_schema_free'], **SB)
+JOBS += [
+    dict(name='c17_add_group_state', props=['C17'], defines=['CQV_PART=0', 'CQV_SCHEMA_MEMSET', 'CQV_NOGROW'], note=NOGROW, wip=False, **AG),
+    dict(name='c19_add_group_name_copy', props=['C19'], defines=['CQV_PART=2', 'CQV_SCHEMA_MEMSET', 'CQV_NOGROW'], wip=False,
+         note='FINDING (same class as 1c84112, not yet fixed): carquet_schema_add_group ignores a failed carquet_arena_strdup', **AG),
+    dict(name='c17_schema_accessors', props=['C17', 'C04'], entry='h_accessors', unwind=6, defines=['CQV_SCHEMA_MEMSET', 'CQV_NOGROW'], wip=False,
+         functions=['carquet_schema_get_element', 'carquet_schema_num_columns', 'carquet_schema_num_elements', 'carquet_schema_node_name', 'carquet_schema_node_is_leaf',
+                    'carquet_schema_node_physical_type', 'carquet_schema_node_logical_type', 'carquet_schema_node_repetition', 'carquet_schema_node_type_length',
+                    'carquet_schema_node_max_def_level', 'carquet_schema_node_max_rep_level'], **SB),
 ]
